@@ -3,7 +3,14 @@ Model: Gen/GenGlobalEncoding.v (translated from header.GlobalEncoding on every r
 assigns to a flag: Python bool/int, GpsTimeType, numpy bool_/int8..uint64 scalars, 0-d arrays; seen through bool()/int() only).
 Correspondence: generated functions vs the real class, exhaustively over 65536 x 5 x 2, every representation of the assigned
 object on boundary values, histories; the field through a written header. Search: the property itself on the real class —
-after EVERY assignment the flag reads back, no other bit moved, the field is still a plain int and serialises to its two bytes."""
+after EVERY assignment the flag reads back, no other bit moved, the field is still a plain int and serialises to its two bytes.
+Round 6: every assignment is judged on ONE object (all five flags read before it, then the flag itself, every OTHER flag, .value and the
+two written bytes observed on the same object: a getter / setter wired to the wrong bit, or remembering an earlier read, shows), over all
+65536 x 5 x 2; and a matrix flag x target x class of starting value (zero, all ones, only this flag, all but this flag, reserved bits only,
+other flags only, random) x every ROUTE that writes a header (write_to, LasWriter(), laspy.open(mode='w') with / without points, LasData.write
+plain / after update_header / of a file read, convert + write, the open writer's own header, the appender's rewrite at close with nothing /
+only empty chunks / points appended before or after the assignment, LasAppender()): the u16 at byte 6 of what was written is the field
+after the assignment(s) and the header read back shows it through .value and every flag."""
 import io
 
 from harness import common
@@ -95,7 +102,8 @@ def correspond(ctx):
                          "the generated Gallina functions (extracted); every representation of the assigned object (Python bool/int, GpsTimeType, "
                          "numpy bool_/int8..uint64, 0-d arrays) x boundary integers (0, 1, extremes, truthy values with zero low bits) x flags x "
                          "field values vs ge_set_py, with the type of the resulting field; random assignment histories (bool and any-representation); the field through "
-                         "LasHeader.write_to/read_from. non-trivial = the assignment changes the value or the flag was already "
+                         "LasHeader.write_to/read_from; flag x target x starting-value class x every route that writes a header (writer, LasData.write, convert, "
+                         "the open writer's header, appender sessions appending nothing / empty chunks / points). non-trivial = the assignment changes the value or the flag was already "
                          "at the target (the toggle-vs-clear case); distinct by (value, flag, target)")
     dis = []
     step = 1
@@ -245,18 +253,52 @@ def oracle_assigned_header(rng, v, i, kind, z, version):
     return None
 
 
-def oracle_element(v, i, b):
-    """The property on the implementation: returns None if it holds, else a description."""
-    try:
-        r = impl_set(v, i, b)
-        impl_get(r, i)
-    except Exception as ex:
-        return f"setting {FLAGS[i]}={b} on value {v:#06x} and reading it back raises {ex!r}"
-    if impl_get(r, i) != b:
-        return f"read back {impl_get(r, i)} after setting {FLAGS[i]}={b} on value {v}"
-    if (r ^ v) & ~MASKS[i] & 0xFFFF or not (0 <= r < 65536):
-        return f"other bits changed: {v} -> {r} when setting {FLAGS[i]}={b}"
+def read_flags(g):
+    return [bool(int(getattr(g, f))) for f in FLAGS]
+
+
+def observe(g, exp, what):
+    """everything a caller can see of a GlobalEncoding object against the field value `exp` it must hold: .value, EVERY flag
+    (the one assigned and the four others), the two bytes it serialises to. None if all agree, else a description"""
+    if g.value != exp or type(g.value) is not int:
+        return f"{what}: .value is {g.value!r}, expected {exp:#06x}"
+    fl = read_flags(g)
+    for j in range(5):
+        if fl[j] != bool(exp & MASKS[j]):
+            return f"{what}: .value is {exp:#06x} and {FLAGS[j]} reads {getattr(g, FLAGS[j])!r}"
+    bio = io.BytesIO()
+    g.write_to(bio)
+    if bio.getvalue() != exp.to_bytes(2, "little"):
+        return f"{what}: .value is {exp:#06x} and the field serialises to {bio.getvalue().hex()}"
     return None
+
+
+def oracle_element(v, i, b):
+    """The property on the implementation, on ONE object: every flag is read before the assignment (whatever an object may
+    remember of earlier reads is there), the flag is assigned, then the flag itself, every OTHER flag, .value and the written
+    bytes are observed on the same object. Returns None if it holds, else a description."""
+    from laspy.header import GlobalEncoding
+    what = f"GlobalEncoding({v:#06x}).{FLAGS[i]} = {b}"
+    try:
+        g = GlobalEncoding(v)
+        why = observe(g, v, f"GlobalEncoding({v:#06x}) before any assignment")
+        if why:
+            return why
+        setattr(g, FLAGS[i], (b if i else int(b)))
+        r = g.value
+        if bool(int(getattr(g, FLAGS[i]))) != b:
+            return f"{what}: the flag reads back {getattr(g, FLAGS[i])!r}"
+        if type(r) is not int or (r ^ v) & ~MASKS[i] or not (0 <= r < 65536):
+            return f"{what}: other bits changed: {v:#06x} -> {r!r}"
+        why = observe(g, (v | MASKS[i]) if b else (v & ~MASKS[i]), what)
+        if why:
+            return why
+        # the field assigned as a whole on the same object (after its flags were read and one was assigned): every flag follows
+        w = (v ^ 0xFFFF) if b else ((v * 40503 + 1) & 0xFFFF)
+        g.value = w
+        return observe(g, w, f"{what}; then .value = {w:#06x} on the same object")
+    except Exception as ex:
+        return f"{what} and reading everything back raises {ex!r}"
 
 
 def oracle_header_field(v, version="1.4"):
@@ -370,48 +412,131 @@ def oracle_objects(rng):
                 if val != v:
                     out.append(("flag changed by LasData operation", {"version": ver, "value": v, "where": nm}, f"field {nm} is {val:#06x}, was set to {v:#06x}"))
                     break
-    # every way a header gets written: LasData.write, laspy.open(mode='w') and the appender's header rewrite (laspy.open(mode='a'))
-    for ver, fmt in (("1.1", 0), ("1.2", 3), ("1.3", 4), ("1.4", 6), ("1.4", 1)):
-        for v0, i, bval in ((0x0000, rng.randrange(5), True), (0xFFFF, rng.randrange(5), False), (0xFFEF, 4, True), (rng.randrange(65536), rng.randrange(5), rng.random() < 0.5)):
-            try:
-                exp = (v0 | MASKS[i]) if bval else (v0 & ~MASKS[i])
-                h = laspy.LasHeader(version=ver, point_format=fmt)
-                h.global_encoding.value = v0
-                rep = rng.choice([k for k in KINDS if k != "g" or i == 0])      # any representation of the assigned value
-                setattr(h.global_encoding, FLAGS[i], make_value(rep, int(bval)))
-                bio = io.BytesIO()
-                with laspy.open(bio, mode="w", header=h, closefd=False) as w:
-                    w.write_points(laspy.ScaleAwarePointRecord.zeros(2, header=h))
-                got = laspy.read(io.BytesIO(bio.getvalue())).header.global_encoding.value
-                if got != exp or int.from_bytes(bio.getvalue()[6:8], "little") != exp:
-                    out.append(("field lost through laspy.open(mode='w')", {"version": ver, "format": fmt, "value": v0, "flag": FLAGS[i], "target": bval},
-                                f"field {exp:#06x} was written/read back as {got:#06x}"))
-                # appender: the file holds v0; the flag is assigned on the appender's header, which is rewritten on close
-                h0 = laspy.LasHeader(version=ver, point_format=fmt)
-                h0.global_encoding.value = v0
-                bio = io.BytesIO()
-                with laspy.open(bio, mode="w", header=h0, closefd=False) as w:
-                    w.write_points(laspy.ScaleAwarePointRecord.zeros(1, header=h0))
-                bio.seek(0)
-                with laspy.open(bio, mode="a", closefd=False) as ap:
-                    if ap.header.global_encoding.value != v0:
-                        out.append(("appender header", {"version": ver, "value": v0}, f"the appender's header holds {ap.header.global_encoding.value:#06x}"))
-                    setattr(ap.header.global_encoding, FLAGS[i], make_value(rep, int(bval)))
-                    if rng.random() < 0.5:
-                        ap.append_points(laspy.ScaleAwarePointRecord.zeros(1, header=ap.header))
-                got = laspy.read(io.BytesIO(bio.getvalue())).header.global_encoding.value
-                if got != exp:
-                    out.append(("field lost through the appender's header rewrite", {"version": ver, "format": fmt, "file_value": v0, "flag": FLAGS[i], "target": bval},
-                                f"{FLAGS[i]}={bval} assigned on the appender's header ({v0:#06x} -> {exp:#06x}); the file read back holds {got:#06x}"))
-            except Exception as ex:
-                out.append(("writing a header raises", {"version": ver, "format": fmt, "value": v0, "flag": FLAGS[i], "target": bval, "assigned_as": rep}, repr(ex)))
+    return out
+
+
+ROUTES = ["LasHeader.write_to", "LasWriter()", "laspy.open(mode='w')", "laspy.open(mode='w'), no points written", "LasData.write", "LasData.write after update_header()",
+          "LasData.write of a file read", "laspy.convert + write", "the open writer's own header (assigned between open and close)",
+          "the appender's header rewrite (nothing appended)", "the appender's header rewrite (only empty chunks appended)",
+          "the appender's header rewrite (points appended after the assignment)", "the appender's header rewrite (points appended before the assignment)",
+          "the appender's header rewrite (LasAppender(), nothing appended)"]
+PAIRS = {"1.1": [0, 1], "1.2": [0, 1, 2, 3], "1.3": [0, 3, 4, 5], "1.4": [0, 3, 6, 7, 10]}
+
+
+def start_values(rng, i):
+    """classes of starting field values for flag i: nothing / everything set, only this flag, all but this flag, only reserved
+    bits, only the other flags, anything"""
+    m = MASKS[i]
+    return [("zero", 0), ("all-ones", 0xFFFF), ("only-this-flag", m), ("all-but-this-flag", 0xFFFF & ~m), ("reserved-bits-only", 0xFFE0),
+            ("other-flags-only", 0x1F & ~m), ("random", rng.randrange(65536))]
+
+
+def run_route(route, ver, fmt, v0, assigns):
+    """the two bytes at offset 6 of the file / header image produced by the route, and the header read back from it. `assigns` =
+    list of (flag index, object) applied in order to the global encoding the route offers"""
+    import laspy
+
+    def apply(ge):
+        for i, obj in assigns:
+            setattr(ge, FLAGS[i], obj)
+    h = laspy.LasHeader(version=ver, point_format=fmt)
+    h.global_encoding.value = v0
+    bio = io.BytesIO()
+    if route == "LasHeader.write_to":
+        apply(h.global_encoding)
+        h.write_to(bio)
+        return bio.getvalue(), laspy.LasHeader.read_from(io.BytesIO(bio.getvalue()))
+    if route in ("LasWriter()", "laspy.open(mode='w')", "laspy.open(mode='w'), no points written"):
+        apply(h.global_encoding)
+        w = laspy.LasWriter(bio, h, closefd=False) if route == "LasWriter()" else laspy.open(bio, mode="w", header=h, closefd=False)
+        with w:
+            if "no points" not in route:
+                w.write_points(laspy.ScaleAwarePointRecord.zeros(2, header=h))
+    elif route == "the open writer's own header (assigned between open and close)":
+        with laspy.open(bio, mode="w", header=h, closefd=False) as w:
+            w.write_points(laspy.ScaleAwarePointRecord.zeros(1, header=h))
+            apply(w.header.global_encoding)
+            w.write_points(laspy.ScaleAwarePointRecord.zeros(1, header=h))
+    elif route.startswith("LasData.write") or route == "laspy.convert + write":
+        if route == "LasData.write of a file read":
+            with laspy.open(bio, mode="w", header=h, closefd=False) as w:
+                w.write_points(laspy.ScaleAwarePointRecord.zeros(2, header=h))
+            las = laspy.read(io.BytesIO(bio.getvalue()))
+            bio = io.BytesIO()
+        else:
+            las = laspy.LasData(h)
+            las.points = laspy.ScaleAwarePointRecord.zeros(3, header=h)
+        apply(las.header.global_encoding)
+        if "update_header" in route:
+            las.update_header()
+        if route == "laspy.convert + write":
+            las = laspy.convert(las, point_format_id=fmt)
+        las.write(bio)
+    else:
+        with laspy.open(bio, mode="w", header=h, closefd=False) as w:
+            w.write_points(laspy.ScaleAwarePointRecord.zeros(1, header=h))
+        bio.seek(0)
+        ap = laspy.lasappender.LasAppender(bio, closefd=False) if "LasAppender()" in route else laspy.open(bio, mode="a", closefd=False)
+        with ap:
+            if ap.header.global_encoding.value != v0:
+                raise AssertionError(f"the appender's header holds {ap.header.global_encoding.value:#06x}, the file {v0:#06x}")
+            if "before the assignment" in route:
+                ap.append_points(laspy.ScaleAwarePointRecord.zeros(2, header=ap.header))
+            apply(ap.header.global_encoding)
+            if "after the assignment" in route:
+                ap.append_points(laspy.ScaleAwarePointRecord.zeros(1, header=ap.header))
+            elif "empty chunks" in route:
+                ap.append_points(laspy.ScaleAwarePointRecord.zeros(0, header=ap.header))
+                ap.append_points(laspy.ScaleAwarePointRecord.zeros(0, header=ap.header))
+    raw = bio.getvalue()
+    return raw, laspy.read(io.BytesIO(raw)).header
+
+
+def oracle_routes(ctx):
+    """every flag x both targets x every class of starting value x every ROUTE that writes a header: the u16 at byte 6 of what was
+    written is the field after the assignment(s), and the header read back shows it through .value and every flag"""
+    rng = ctx.rng
+    out = []
+    for i in range(5):
+        for bval in (True, False):
+            for cls, v0 in start_values(rng, i):
+                for route in ROUTES:
+                    for ver in (list(PAIRS) if ctx.thorough() else [rng.choice(list(PAIRS))]):
+                        fmt = rng.choice(PAIRS[ver])
+                        rep = rng.choice([k for k in KINDS if k != "g" or i == 0])      # any representation of the assigned value
+                        assigns = [(i, make_value(rep, int(bval)))]
+                        exp = (v0 | MASKS[i]) if bval else (v0 & ~MASKS[i])
+                        desc = [f"{FLAGS[i]} = {describe(rep, int(bval))}"]
+                        if rng.random() < 0.3:
+                            # a second assignment, of another flag
+                            j = rng.choice([k for k in range(5) if k != i])
+                            b2 = rng.random() < 0.5
+                            assigns.append((j, b2 if j else int(b2)))
+                            exp = (exp | MASKS[j]) if b2 else (exp & ~MASKS[j])
+                            desc.append(f"{FLAGS[j]} = {b2}")
+                        ctx.case(("route", route, ver, v0, i, bval, len(assigns)), sample=None)
+                        ctx.count("route:" + route)
+                        ctx.count("start:" + cls)
+                        inp = {"route": route, "version": ver, "format": fmt, "start_value": v0, "start_class": cls, "flag": FLAGS[i], "target": bval,
+                               "assignments": desc, "expected_field": exp}
+                        try:
+                            raw, back = run_route(route, ver, fmt, v0, assigns)
+                            got = int.from_bytes(raw[6:8], "little")
+                            if got != exp:
+                                out.append((f"field lost through {route}", inp, f"{v0:#06x} then {'; '.join(desc)}: the u16 at byte 6 of the written header is {got:#06x}, expected {exp:#06x}"))
+                                continue
+                            why = observe(back.global_encoding, exp, f"header read back from what {route} wrote")
+                            if why:
+                                out.append((f"field written through {route} not read back", inp, why))
+                        except Exception as ex:
+                            out.append((f"writing a header through {route} raises", inp, repr(ex)))
     return out
 
 
 def search(ctx, seeds):
     failing = []
     seen = set()
-    for kind, inp, why in oracle_objects(ctx.rng):
+    for kind, inp, why in oracle_objects(ctx.rng) + oracle_routes(ctx):
         if kind not in seen:
             seen.add(kind)
             failing.append({"kind": kind, "input": inp, "observed": why})
@@ -457,6 +582,9 @@ def search(ctx, seeds):
                 if h.global_encoding.value != exp or type(h.global_encoding.value) is not int:
                     why = f"after step {step} ({FLAGS[i]} = {describe(k, z)}) the field is {h.global_encoding.value!r} ({type(h.global_encoding.value).__name__}), expected {exp:#06x} (int)"
                     break
+                why = observe(h.global_encoding, exp, f"after step {step} ({FLAGS[i]} = {describe(k, z)})")
+                if why:
+                    break
             if why is None:
                 bio = io.BytesIO()
                 h.write_to(bio)
@@ -483,9 +611,18 @@ def search(ctx, seeds):
 def replay(ctx, data):
     fi = data.get("failing_input", {})
     inp = fi.get("input", {})
-    if "assigned_kind" in inp:
+    if "route" in inp:
+        i = FLAGS.index(inp["flag"])
+        try:
+            raw, back = run_route(inp["route"], inp["version"], inp["format"], inp["start_value"], [(i, inp["target"] if i else int(inp["target"]))])
+            exp = (inp["start_value"] | MASKS[i]) if inp["target"] else (inp["start_value"] & ~MASKS[i])
+            got = int.from_bytes(raw[6:8], "little")
+            why = (f"the u16 at byte 6 is {got:#06x}, expected {exp:#06x}" if got != exp else observe(back.global_encoding, exp, "header read back"))
+        except Exception as ex:
+            why = repr(ex)
+    elif "assigned_kind" in inp:
         why = oracle_assigned(inp["value"], FLAGS.index(inp["flag"]), inp["assigned_kind"], inp["assigned_int"])
-    elif "flag" in inp:
+    elif "flag" in inp and "value" in inp and "target" in inp:
         why = oracle_element(inp["value"], FLAGS.index(inp["flag"]), inp["target"])
     elif "value" in inp:
         why = oracle_header_field(inp["value"], inp.get("version", "1.4"))
